@@ -4,6 +4,7 @@ from __future__ import annotations
 
 import fcntl
 import hashlib
+import contextlib
 import json
 import os
 import re
@@ -375,6 +376,27 @@ class Report:
                   f"obligations={self.coverage['obligations']} discharged={self.coverage['discharged']} "
                   f"wall={wall:.1f}s")
         return rc
+
+
+@contextlib.contextmanager
+def debug_logging(on=True):
+    """Library loggers at DEBUG (records go nowhere): code paths that only run when debug logging is enabled."""
+    import logging
+    lg = logging.getLogger("aioesphomeapi")
+    old = (lg.level, lg.propagate, list(lg.handlers))
+    disabled = logging.root.manager.disable
+    if on:
+        logging.disable(logging.NOTSET)       # setup_impl_path() silences the library; lift that for the duration
+        lg.setLevel(logging.DEBUG)
+        lg.propagate = False
+        lg.handlers = [logging.NullHandler()]
+    try:
+        yield
+    finally:
+        lg.setLevel(old[0])
+        lg.propagate = old[1]
+        lg.handlers = old[2]
+        logging.disable(disabled)
 
 
 def setup_impl_path():
